@@ -18,3 +18,26 @@
 (declare-fun gnDer (Any) Bytes)      ; DER of a cert.GeneralName value (interface contract of marshal)
 (define-fun-rec catNames ((v (View Any)) (i Int) (acc Bytes)) Bytes
   (ite (or (< i 0) (>= i (vlen v))) acc (catNames v (+ i 1) (bcat acc (gnDer (select (varr v) (+ (voff v) i)))))))
+; deep value of a []byte holding the given bytes / of an AuthorityKeyIdentifier struct holding the given key identifier
+(declare-fun deepBytes (Bytes) Deep)
+(declare-fun deepS_S_cert_AuthorityKeyIdentifier (Deep) Deep)
+(define-fun akiDeep ((keyid Bytes)) Deep (deepS_S_cert_AuthorityKeyIdentifier (deepBytes keyid)))
+(declare-fun deepOid (OidV) Deep)
+; authority information access (RFC 5280 4.2.2.1): SEQUENCE OF SEQUENCE { id-ad-ocsp, accessLocation }
+; usetype github.com/wokdav/gopki/generator/cert.AccessDescription
+(define-fun oidAdOcsp () OidV (osnoc (osnoc (osnoc (osnoc (osnoc (oid4e 1 3 6 1) 5) 5) 7) 48) 1))
+(define-fun-rec catAia ((v (View S_cert_AccessDescription)) (i Int) (acc Bytes)) Bytes
+  (ite (or (< i 0) (>= i (vlen v))) acc
+     (catAia v (+ i 1) (bcat acc (tlv 0 16 true (bcat (bcat bempty (der (deepOid oidAdOcsp))) (gnDer (S_cert_AccessDescription__AccessLocation (select (varr v) (+ (voff v) i))))))))))
+; ---- CommonPKI AdmissionSyntax (C16)
+; usetype github.com/wokdav/gopki/generator/cert.Admissions
+; usetype github.com/wokdav/gopki/generator/cert.ProfessionInfo
+(declare-fun deepv_String (String) Deep)
+(define-fun-rec catItems ((v (View String)) (i Int) (acc Bytes)) Bytes
+  (ite (or (< i 0) (>= i (vlen v))) acc (catItems v (+ i 1) (bcat acc (derField (deepv_String (select (varr v) (+ (voff v) i))) "utf8")))))
+(declare-fun piDer (S_cert_ProfessionInfo) Bytes)    ; DER of one ProfessionInfo (defined by ProfessionInfo.marshal's contract)
+(declare-fun axDer (S_cert_Admissions) Bytes)        ; DER of one Admissions element
+(define-fun-rec catPi ((v (View S_cert_ProfessionInfo)) (i Int) (acc Bytes)) Bytes
+  (ite (or (< i 0) (>= i (vlen v))) acc (catPi v (+ i 1) (bcat acc (piDer (select (varr v) (+ (voff v) i)))))))
+(define-fun-rec catAx ((v (View S_cert_Admissions)) (i Int) (acc Bytes)) Bytes
+  (ite (or (< i 0) (>= i (vlen v))) acc (catAx v (+ i 1) (bcat acc (axDer (select (varr v) (+ (voff v) i)))))))
